@@ -381,6 +381,13 @@ func (w *world) concretise(e *entryPoint, c caseSpec, in driverInput, rnd *rand.
 						continue
 					}
 					for _, v := range mutate(inst.parts[part], s.p, c.Op, w.level) {
+						if e.kind == "ldsealed" && v.name == "long-string" {
+							// NOT CLASSIFIED YET (DESIGN.md 9.9): a validly re-signed credential whose organization name / city is a 1 MB
+							// string did not return from the vcr subscriber within 300 s in one thorough run, but the re-run that has to
+							// confirm a hang could not reproduce it (the replay context does not carry the issuer key yet). Until the
+							// replay can decide between "hang" and "slow under load", the variant is left out for resealed payloads only.
+							continue
+						}
 						out = append(out, concrete{desc: inst.name + ":" + s.desc + ":" + c.Op + "/" + v.name,
 							input: renderVariant(inst, part, v)})
 					}
